@@ -97,6 +97,7 @@ class ModelQuantumEngine:
         self.failing_jobs = set(failing_jobs)
         self.streams: List[Stream] = []
         self.open_failures = 0
+        self.processed_then_failed: List = []    # unary RPCs whose effect took place but whose reply was a 5xx
         self.orphaned_request_iterators = 0
         self.clean_closes: List = []            # (epoch, message ids in flight) of streams the server closed with OK
         self.cancel_requests: List[str] = []
@@ -403,6 +404,18 @@ class ModelQuantumEngine:
             self.ctx.fault(kind)
             if kind == "unary-5xx":
                 exc = [gexc.InternalServerError, gexc.ServiceUnavailable][self.sim.tape.draw(2, "5xx")](f"injected {name}")
+                if self.enabled_faults.get("unary-5xx-after") and self.sim.tape.chance(1, 2, "after-processing?"):
+                    # the server did the work and the *reply* was lost: for the caller the same 5xx
+                    try:
+                        getattr(self, "_rpc_" + name)(req)
+                        self.ctx.fault("unary-5xx-after-processing")
+                        self.unary_log.append((name, _target(req), type(exc).__name__, "injected-after-processing"))
+                        self.processed_then_failed.append((name, _target(req)))
+                        self.injected_unary.append(exc)
+                        fut.set_exception(exc)
+                        return
+                    except gexc.GoogleAPICallError:
+                        pass        # the server itself refuses: fall through to the plain injected failure
             else:
                 exc = [gexc.PermissionDenied, gexc.InvalidArgument, gexc.ResourceExhausted][self.sim.tape.draw(3, "4xx")](f"injected {name}")
             self.unary_log.append((name, _target(req), type(exc).__name__, "injected"))
